@@ -178,6 +178,9 @@ func (h *Handler) HandleMessage(msg stanza.Message, t xmlstream.TokenReadEncoder
 	/* #nosec */
 	defer i.Close()
 
+	// A message may carry a receipt and a request for one (and other payloads)
+	// side by side, in any order: look at all of its children.
+	requested := false
 	for i.Next() {
 		start, _ := i.Current()
 		if start == nil {
@@ -197,24 +200,29 @@ func (h *Handler) HandleMessage(msg stanza.Message, t xmlstream.TokenReadEncoder
 				if h.Unhandled != nil {
 					h.Unhandled(id)
 				}
-				return nil
+				continue
 			}
 
 			c <- struct{}{}
-			return nil
 		case "request":
-			msg.From, msg.To = msg.To, msg.From
-			id := msg.ID
-			msg.ID = ""
-
-			_, err = xmlstream.Copy(t, msg.Wrap(xmlstream.Wrap(nil, xml.StartElement{
-				Name: xml.Name{Space: NS, Local: "received"},
-				Attr: []xml.Attr{{Name: xml.Name{Local: "id"}, Value: id}},
-			})))
-			return err
+			requested = true
 		}
 	}
-	return i.Err()
+	if err := i.Err(); err != nil {
+		return err
+	}
+	if requested {
+		msg.From, msg.To = msg.To, msg.From
+		id := msg.ID
+		msg.ID = ""
+
+		_, err = xmlstream.Copy(t, msg.Wrap(xmlstream.Wrap(nil, xml.StartElement{
+			Name: xml.Name{Space: NS, Local: "received"},
+			Attr: []xml.Attr{{Name: xml.Name{Local: "id"}, Value: id}},
+		})))
+		return err
+	}
+	return nil
 }
 
 // SendMessage transmits the first element read from the provided token reader
